@@ -20,6 +20,10 @@ impl KeyRange {
     fn max(&self) -> (r: &UserKey) ensures r == &self.1 { &self.1 }
     #[verifier::external_body]
     fn contains_range(&self, other: &Self) -> (r: bool) ensures r == (self.lo() <= other.lo() && other.hi() <= self.hi()) { unimplemented!() }
+    #[verifier::external_body]
+    fn overlaps_with_key_range(&self, other: &Self) -> (r: bool) ensures r == (self.hi() >= other.lo() && self.lo() <= other.hi()) { unimplemented!() }
+    #[verifier::external_body]
+    fn contains_key(&self, key: &UserKey) -> (r: bool) ensures r == self.has(key.rank()) { unimplemented!() }
 }
 trait Ranged {
     spec fn kr(&self) -> KeyRange;
